@@ -9,7 +9,7 @@ MANIFEST = {
     "note": "Trusted: Lean kernel; model (differential tie + kernels); the integrity of the security context (unwrap verifies) is a premise about pyspnego / NTLM / Kerberos, never a conclusion — partial in that respect; Kerberos / Negotiate are not run (no KDC in the sandbox)",
     "technique": "Lean 4 proof (decision logic + dataflow under an explicit idealisation) + kernel extraction + alteration correspondence",
 }
-THEOREMS_TODO = ["DpapiNg.C16.cleartext_rejected", "DpapiNg.C16.sealed_only", "DpapiNg.C16.tamper_rejected"]
+THEOREMS = ["DpapiNg.C16.cleartext_rejected", "DpapiNg.C16.sealed_only", "DpapiNg.C16.tamper_rejected"]
 RULE = ("authentic sealed replies (stub lengths 0..80, signature sizes {16,28,60,76}, header signing on/off) and all alterations: security trailer removed (auth_len 0, with and without the "
         "trailer bytes), every single-bit flip of header / body / trailer header / signature, pad_length and frag_len / auth_len changes, truncation, replay of a previous reply, "
         "a fault / bind_ack in place of the response; sync and async; distinct by op line")
@@ -192,4 +192,3 @@ def replay(ctx, payload):
     out, resp, auth = do_request(bytes.fromhex(v["wire"]), v["header_len"], v["sign"], False)
     print("request() →", out[:200])
     return out.startswith("err ")
-THEOREMS = []
